@@ -208,6 +208,11 @@ func TestC06_History(t *testing.T) {
 			}
 			stats.Label(part, "replay_"+other)
 		}
+		for k, v := range a.Labels {
+			if v > 0 && strings.HasPrefix(k, "tx_lab") {
+				stats.Label(part, k)
+			}
+		}
 		var kl []string
 		for k := range allKinds {
 			kl = append(kl, k)
